@@ -44,12 +44,12 @@ def mat_of(box):
 
 
 def style_bg(box):
-    """Style-level background (S visible colour images): what layout_box_backgrounds reads of the style."""
+    """Style-level background (S visibility colour images): what layout_box_backgrounds reads of the style."""
     from weasyprint.draw.color import get_color
     style = box.style
     color = get_color(style, 'background_color')
     images = sum(1 for type_, value in style['background_image'] if type_ != 'none' and value is not None)
-    return ['S', style['visibility'] != 'hidden', color_code(color) if color.alpha > 0 else 'transparent', images]
+    return ['S', style['visibility'], color_code(color) if color.alpha > 0 else 'transparent', images]
 
 
 def style_matrix(box):
@@ -102,15 +102,46 @@ def attrs_of(box, vid, style_level=False):
         bool(getattr(box, 'empty', False)), groups]
 
 
+# A laid-out page can hold the same box object below two parents (a `position: fixed` box cut by the page bottom:
+# its continuation and its repeated copy share their out-of-flow children — C11 finding
+# fixed-box-fragmented-on-own-page).  Boxes are identified by object (`_vid`), so export_box de-aliases the tree
+# first: the second occurrence is replaced by a shallow copy (same attributes, painted the same way).  SHARED
+# lists what was copied by the last export_page.
+SHARED = []
+EXPORT_PASS = [0]
+
+
+def dealias_children(box):
+    import copy
+
+    from weasyprint.layout.absolute import AbsolutePlaceholder
+    children, changed, here = [], False, set()
+    for child in box.children:
+        placeholder = isinstance(child, AbsolutePlaceholder)
+        inner = child._box if placeholder else child
+        if getattr(inner, '_export_pass', None) == EXPORT_PASS[0] or id(inner) in here:
+            SHARED.append(f'{type(inner).__name__} <{inner.element_tag}>')
+            inner = copy.copy(inner)
+            inner._export_pass = None
+            child = AbsolutePlaceholder(inner) if placeholder else inner
+            changed = True
+        here.add(id(inner))
+        children.append(child)
+    if changed:
+        box.children = type(box.children)(children) if isinstance(box.children, (list, tuple)) else children
+
+
 def export_box(box, vid, style_level=False):
     """-> wire form (L attrs) | (N attrs (kids)) | (P box); tags every real box with `_vid`."""
     from weasyprint.formatting_structure import boxes
     from weasyprint.layout.absolute import AbsolutePlaceholder
     if isinstance(box, AbsolutePlaceholder):
         return ['P', export_box(box._box, vid, style_level)]
+    box._export_pass = EXPORT_PASS[0]
     box._vid = vid()
     attrs = attrs_of(box, vid, style_level)
     if isinstance(box, boxes.ParentBox):
+        dealias_children(box)
         return ['N', attrs, [export_box(child, vid, style_level) for child in box.children]]
     return ['L', attrs]
 
@@ -122,7 +153,10 @@ def export_page(page_box, style_level=False):
     counter = iter(range(1, 10 ** 9))
     vid = lambda: next(counter)  # noqa: E731
     page_box._vid = 0
+    EXPORT_PASS[0] += 1
+    del SHARED[:]
     attrs = attrs_of(page_box, vid, style_level)
+    dealias_children(page_box)
     kids = [export_box(child, vid, style_level) for child in page_box.children]
     return attrs, kids, bg_of_canvas(page_box)
 
@@ -288,6 +322,7 @@ class Scene:
         self.features = features or {}
         self.used = set()
         self.geo = bool(self.features.get('geo'))   # geometry mode: only decorations whose paths are modelled
+        self.hidden = 0      # > 0 while generating the content of a `visibility: hidden` element
 
     # -- style pieces
     def new_id(self):
@@ -361,8 +396,12 @@ class Scene:
         if allow_overflow and rng.random() < 0.10:
             parts.append(f'overflow:{rng.choice(["hidden", "hidden", "auto", "scroll"])}')
             self.used.add('overflow')
-        if rng.random() < 0.06:
-            parts.append(f'visibility:{rng.choice(["hidden", "hidden", "visible"])}')
+        if self.hidden and rng.random() < 0.5:
+            # `visibility` is inherited and can be reset: visible content inside a hidden element
+            parts.append('visibility:visible')
+            self.used.add('visibility-reset')
+        elif rng.random() < 0.06:
+            parts.append(f'visibility:{rng.choice(["hidden", "hidden", "visible", "collapse"])}')
             self.used.add('visibility')
         if positioned or rng.random() < 0.08:
             z = rng.choice(Z_VALUES)
@@ -385,6 +424,17 @@ class Scene:
                 self.used.add('clip')
         self.used.add('positioned')
         return parts
+
+    def inside(self, style, make):
+        """Generate the content of an element with this style, remembering whether it is hidden."""
+        hidden = any(part.startswith('visibility:') and part != 'visibility:visible' for part in style)
+        shown = any(part == 'visibility:visible' for part in style)
+        saved = self.hidden
+        self.hidden = (saved + 1) if hidden and not shown else (0 if shown else saved)
+        try:
+            return make()
+        finally:
+            self.hidden = saved
 
     # -- content
     def text(self):
@@ -418,7 +468,8 @@ class Scene:
                     self.used.add('positioned-inline')
                 else:
                     style += self.effect_style(allow_overflow=False)
-                out.append(f'<span style="{";".join(style)}">{self.inline_content(depth - 1, 3)}</span>')
+                inner = self.inside(style, lambda: self.inline_content(depth - 1, 3))
+                out.append(f'<span style="{";".join(style)}">{inner}</span>')
             elif roll < 0.76:
                 i = self.new_id()
                 display = rng.choice(['inline-block', 'inline-block', 'inline-block', 'inline-flex',
@@ -429,7 +480,8 @@ class Scene:
                 if rng.random() < 0.15:
                     style += self.position_style()
                 self.used.add(display)
-                inner = self.flow_children(depth - 1, 2) if rng.random() < 0.4 else self.inline_content(depth - 1, 2)
+                inner = self.inside(style, lambda: (
+                    self.flow_children(depth - 1, 2) if rng.random() < 0.4 else self.inline_content(depth - 1, 2)))
                 out.append(f'<div style="{";".join(style)}">{inner}</div>')
             elif roll < 0.88:
                 out.append(self.floating(depth - 1))
@@ -445,12 +497,12 @@ class Scene:
             style += ['position:relative'] + self.effect_style(positioned=True)
             self.used.add('float+relative')
         self.used.add('float')
-        return f'<div style="{";".join(style)}">{self.block_inner(depth)}</div>'
+        return f'<div style="{";".join(style)}">{self.inside(style, lambda: self.block_inner(depth))}</div>'
 
     def positioned(self, depth):
         i = self.new_id()
         style = self.position_style() + self.paint_style(i) + self.effect_style(positioned=True)
-        return f'<div style="{";".join(style)}">{self.block_inner(depth)}</div>'
+        return f'<div style="{";".join(style)}">{self.inside(style, lambda: self.block_inner(depth))}</div>'
 
     def block_inner(self, depth):
         if depth <= 0 or self.rng.random() < 0.5:
@@ -461,7 +513,7 @@ class Scene:
         rng = self.rng
         i = self.new_id()
         style = self.paint_style(i) + self.effect_style()
-        if rng.random() < 0.3:
+        if rng.random() < 0.3 and not self.geo:
             style.append('border-collapse:collapse')
             style = [s for s in style if not s.startswith('border')] + ['border-collapse:collapse']
             collapse = True
@@ -552,16 +604,18 @@ class Scene:
             elif depth <= 0 or roll < 0.25:
                 i = self.new_id()
                 style = self.paint_style(i) + self.effect_style()
-                out.append(f'<p style="{";".join(style)}">{self.inline_content(depth - 1, 4)}</p>')
+                inner = self.inside(style, lambda: self.inline_content(depth - 1, 4))
+                out.append(f'<p style="{";".join(style)}">{inner}</p>')
             elif roll < 0.50:
                 i = self.new_id()
                 style = self.paint_style(i) + self.effect_style()
-                out.append(f'<div style="{";".join(style)}">{self.block_inner(depth - 1)}</div>')
+                inner = self.inside(style, lambda: self.block_inner(depth - 1))
+                out.append(f'<div style="{";".join(style)}">{inner}</div>')
             elif roll < 0.62:
                 out.append(self.floating(depth - 1))
             elif roll < 0.77:
                 out.append(self.positioned(depth - 1))
-            elif roll < 0.89 and not self.geo:
+            elif roll < 0.89 and (not self.geo or self.features.get('geo_tables')):
                 out.append(self.table(depth - 1))
             else:
                 out.append(self.flex_or_grid(depth - 1))
@@ -633,6 +687,16 @@ def geometry_table(page_box):
         if type(box).__name__ not in TABLE_PART_NAMES and hasattr(box, 'width'):
             clip = box.style['background_clip'][0]
             entries.append(['B', box._vid, geo_of(box), clip])
+        name = type(box).__name__
+        if name == 'TableRowBox':
+            entries.append(['R', box._vid, geo_of(box), [cell._vid for cell in box.children]])
+        elif name == 'TableRowGroupBox':
+            entries.append(['G', box._vid, geo_of(box), [[cell._vid for cell in row.children] for row in box.children]])
+        if isinstance(box, boxes.TableBox):
+            for group in box.column_groups:
+                entries.append(['K', group._vid, geo_of(group), [cell._vid for cell in group.get_cells()]])
+                for col in group.children:
+                    entries.append(['K', col._vid, geo_of(col), [cell._vid for cell in col.get_cells()]])
         if isinstance(box, boxes.TextBox):
             entries.append(['T', box._vid, Fraction(box.position_x), Fraction(box.position_y + box.baseline),
                             Fraction(box.style['font_size'])])
